@@ -284,6 +284,9 @@ func addrWorld(kind string) *world {
 	w.onClose = func(w *world, ci *connInfo, err error) Action { check(ci, "in OnClose"); return None }
 	w.script = func(w *world) {
 		done := 0
+		if kind != "unix" {
+			sched.SetSettle(6) // loopback TCP delivers asynchronously
+		}
 		sched.Go("peer", func() {
 			defer func() { done++ }()
 			w.waitBoot()
@@ -342,7 +345,7 @@ func TestMC_C17live(t *testing.T) {
 	}
 	for _, k := range kinds {
 		k := k
-		cfgs = append(cfgs, sched.Config{Property: "C17", Name: "addr-live/" + k, Bounds: engineBounds(1, 2, 0), Horizon: 40000, Deadline: seqmc.Deadline(), DelayBounded: true,
+		cfgs = append(cfgs, sched.Config{Property: "C17", Name: "addr-live/" + k, Bounds: engineBounds(1, 2, 0), Horizon: 40000, Deadline: seqmc.Deadline(), DelayBounded: true, TolerateNondeterminism: k != "unix",
 			New: func() sched.Scenario { return addrWorld(k) }})
 	}
 	runEngineCheck(t, "C17", cfgs, func(name string) *sched.Config {
